@@ -149,10 +149,18 @@ def param_spec(draw, types=TYPES, for_schema=False):
         cfg["objects"] = draw(st.sampled_from([[1, 2, 3], ["a", "b"], [1, "a", 2.5], [0.5, 1.5], [None, 1], ["x"], [1, 2.0]]))
     elif t == "ClassSelector":
         cfg["class_"] = draw(st.sampled_from([int, str, float, (int, str)]))
+    if t in ("Selector", "ListSelector") and for_schema and draw(st.integers(0, 5)) == 0:
+        cfg["objects"] = []          # no allowed objects declared (check_on_set is then False)
+        return (t, cfg, None, None)
     v1 = value()
     v2 = value()
     if cfg.get("allow_None") and draw(st.integers(0, 3)) == 0:
         v2 = None
+    if t in ("Selector", "ListSelector") and for_schema and draw(st.integers(0, 4)) == 0:
+        # a selector declared without a default: the state of a freshly built object is None
+        v1 = None
+        if draw(st.booleans()):
+            v2 = None
     return (t, cfg, v1, v2)
 
 
